@@ -36,7 +36,7 @@ pub fn prop() -> Prop {
 fn run(ctx: &mut Ctx) {
     let n = ctx.tier.pick(3_000, 300_000);
     ctx.cases(0, n, |ctx, rng, _| {
-        let seed = rng.next();
+        let seed = match rng.below(10) { 0 => 0, 1 => u64::MAX, 2 => 1, _ => rng.next() }; // edge seeds included: a seed is a seed
         // form: 0 exact count, 1 inclusive range, 2 half-open range, 3 tiny inclusive range, 4 range with an excluded start bound,
         // 5 range without an upper bound (a minimum only)
         let form = rng.below(6);
@@ -81,6 +81,7 @@ fn run(ctx: &mut Ctx) {
         if fires >= 3 { ctx.nontrivial(crate::rng::hash64(&[seed, lo as u64, hi as u64, polls as u64])); }
         ctx.count(if exact { "timers.exact" } else if form == 4 { "timers.excluded-start-bound" } else if form == 5 { "timers.no-upper-bound" } else if incl { "timers.inclusive-range" } else { "timers.exclusive-range" });
         ctx.count_n("fires", fires);
+        if seed == 0 && !exact && fires >= 3 { ctx.count("timers.seed-0-with-a-range"); }
         if ctx.want_sample() && fires > 3 && hist.len() > 6 { ctx.sample(case(&hist).set("fires", fires).set("polls", polls)); }
     });
     // phase 1: inside the simulator
@@ -168,7 +169,7 @@ fn shared(ctx: &mut Ctx) {
 
 fn guard(m: &Merged, _t: Tier) -> Vec<String> {
     let mut out = vec![];
-    for k in ["timers.exact", "timers.inclusive-range", "timers.exclusive-range", "timers.excluded-start-bound", "timers.no-upper-bound", "shared.mutex.healthy", "shared.mutex.poisoned", "shared.rwlock.healthy", "shared.rwlock.poisoned", "shared.inside-simulator", "gaps.at-min", "gaps.at-max", "gaps.inside", "first-fire-after-arm", "sim.timers", "sim.gaps-in-range", "sim.timers-with-external-interrupt-source"] { need(m, &mut out, k, 20); }
+    for k in ["timers.exact", "timers.inclusive-range", "timers.exclusive-range", "timers.excluded-start-bound", "timers.no-upper-bound", "timers.seed-0-with-a-range", "shared.mutex.healthy", "shared.mutex.poisoned", "shared.rwlock.healthy", "shared.rwlock.poisoned", "shared.inside-simulator", "gaps.at-min", "gaps.at-max", "gaps.inside", "first-fire-after-arm", "sim.timers", "sim.gaps-in-range", "sim.timers-with-external-interrupt-source"] { need(m, &mut out, k, 20); }
     need(m, &mut out, "fires", 10_000);
     out
 }
